@@ -36,6 +36,7 @@ type PtrShape struct {
 }
 
 type Obligation struct {
+	ShortBudget bool // recorded as a known finding: expected not to discharge, tried briefly
 	Name    string
 	Kind    string
 	Fn      string
